@@ -124,7 +124,12 @@ func (p *parser) advance() bool {
 			if p.lastComment.Len() > 0 {
 				p.lastComment.WriteByte('\n')
 			}
-			p.lastComment.WriteString(p.input[start:p.position])
+			text := p.input[start:p.position]
+			for len(text) > 0 && text[len(text)-1] == '\r' {
+				// CR of a CRLF line ending is layout, not comment text
+				text = text[:len(text)-1]
+			}
+			p.lastComment.WriteString(text)
 			p.next()
 			if p.position > len(p.input) {
 				// comment ended at end of input, there was no newline to consume
